@@ -57,13 +57,26 @@ PARTIAL = {
         "fold): the midpoint pass reads only existing rows (no IndexError), returns exactly v = 12 + #created midpoints "
         "rows, every triangle index and cached index is < v (icoTopology_ok); the cache key is injective on unordered edges "
         "(cache_key_identifies_edge); consequently sphere_defined_of_count_and_nonzero_rows: v = 10·4^order+2 and all "
-        "rows of the midpoint pass non-zero imply the factory returns a mesh. REMAINING (not proved): (a) that the rows "
-        "of icoMidpoints indexed by icoTopology's triangles are the position triangles of geoIco (cache entries point at "
-        "the midpoint row of their edge, rows are stable under later appends), which would turn "
-        "icosphere_midpoints_nonzero_all_orders into the non-zero-rows hypothesis; (b) that exactly 10·4^order+2 "
-        "vertices are created for order > 2 (orders 0–2 by kernel evaluation, icosphere_vertex_counts). So "
-        "sphere_structure / ellipsoid_structure stay conditional on the factory returning a mesh for order >= 1 (order "
-        "0: sphere_order0_defined; orders 0–4 are exercised on the real code). The code has no per-midpoint "
+        "rows of the midpoint pass non-zero imply the factory returns a mesh. GLUE NOW PROVED for every order "
+        "(D3/Proofs/TetraMeshIcoGlue.lean): the midpoint pass only appends, earlier rows are stable and row |vs|+i is "
+        "0.5·(row a + row b) of the i-th parent pair (icosphere_midpoint_rows); cache invariant CacheOK (every cache "
+        "entry (key, idx) has key = cantorKey a b with parents[idx−12] = (a, b)) is preserved by add_mid_point on hit and "
+        "miss and the returned vertex has parent pair (a,b) or (b,a) (add_mid_point_returns_midpoint_of_requested_edge, "
+        "uses cache_key_identifies_edge); lifted through subdivideTriangle, the fold over the triangles and Nat.repeat "
+        "(icoTopology_glue): the position triangles of icoTopology's index triangles, rows looked up in the result of "
+        "the model's midpoint pass, are exactly geoIco order, same order of triangles and corners "
+        "(icosphere_index_triangles_are_geoIco_all_orders); every vertex index < v is a corner of a triangle of the final "
+        "level (icoTopology_cover), hence every row of the midpoint pass is non-zero at every order "
+        "(icosphere_rows_nonzero_all_orders), and sphere_defined_of_count / ellipsoid_defined_of_count: v = 10·4^order+2 "
+        "ALONE implies make_tetrahedral_sphere (every radius > 0) / make_tetrahedral_ellipsoid (every radii) returns a "
+        "mesh. Count additionally kernel-evaluated at order 3 (icosphere_vertex_count_order3: 642 vertices, cache ends "
+        "empty; an evaluation of that one order, about 10 s), so sphere_defined_orders_le_3 / ellipsoid_defined_orders_le_3: both factories return "
+        "a mesh for orders 0–3 unconditionally. REMAINING (not proved): only (b) that exactly 10·4^order+2 vertices are "
+        "created for order > 3 (needs: every undirected edge of the level-k triangulation is shared by exactly two "
+        "triangles, so the pop-on-second-hit cache creates one vertex per edge and ends empty; V' = V + 3F/2, F' = 4F; "
+        "not attempted; order 4 also evaluates with decide +kernel but takes about 2 minutes and is not included). So "
+        "sphere_structure / ellipsoid_structure stay conditional on the factory returning a mesh for order >= 4 (orders "
+        "0–4 are exercised on the real code). The code has no per-midpoint "
         "normalisation, so 'every vertex has norm = radius' is the existing sphere_structure (any order, conditional)"),
     "capsule_boundary": (
         "proved (capsule_cap_vertices_on_surface, helper capsule_cap_vertices_core / capsule_theta_mem): for r >= 0 every "
@@ -101,7 +114,11 @@ MANIFEST = dict(
           "icosphere_midpoints_nonzero_all_orders), factory defined if the rows are complete and non-zero "
           "(sphere_defined_of_nonzero_rows, sphere_defined_of_count_and_nonzero_rows), midpoint pass index-safe at every "
           "order (icosphere_index_bookkeeping_all_orders), cache key injective on unordered edges "
-          "(cache_key_identifies_edge); capsule_cap_vertices_on_surface: all "
+          "(cache_key_identifies_edge); index/cache subdivision identified with the position-triangle subdivision at "
+          "every order (add_mid_point_returns_midpoint_of_requested_edge, icosphere_midpoint_rows, "
+          "icosphere_index_triangles_are_geoIco_all_orders), all rows non-zero (icosphere_rows_nonzero_all_orders), "
+          "factories defined given only the vertex count (sphere_defined_of_count, ellipsoid_defined_of_count), count "
+          "evaluated at order 3 (icosphere_vertex_count_order3), sphere_defined_orders_le_3, ellipsoid_defined_orders_le_3; capsule_cap_vertices_on_surface: all "
           "capsule vertices but the two medial ones on the outward hemisphere of their cap sphere); model compared with the "
           "implementation (Rat-exact on dyadic sizes); oracle on the six real factories with ConvexHull volume."),
     note=("trusted: Lean kernel + Mathlib, axioms propext/Classical.choice/Quot.sound; exact-real semantics; "
